@@ -1,1 +1,1 @@
-
+import CorgiProps.C16
